@@ -42,6 +42,11 @@ def plan(tier, seed):
     for ld, rd in [(64, 64), (80, 80), (96, 96), (127, 127), (128, 31), (64, 72)]:
         regs.append('c05::Bin<%s, %s, true>::reg("%d_wide31|%d_wide31")' % (el(ld, 'cnl::wide_integer<31>'), el(rd, 'cnl::wide_integer<31>'), ld, rd))
     regs.append('c05::Bin<%s, %s, true>::reg("64_wide7i8|72_wide7i8")' % (el(64, 'cnl::wide_integer<7, signed char>'), el(72, 'cnl::wide_integer<7, signed char>')))
+    # 64-bit words: products of exactly four limbs (the unrolled multiply), and products large enough for the Karatsuba path (132 limbs)
+    W63 = 'cnl::wide_integer<63, std::int64_t>'
+    for ld, rd in [(100, 100), (127, 127), (50, 205), (205, 50), (64, 130)]:
+        regs.append('c05::Bin<%s, %s, true>::reg("%d_wide63i64|%d_wide63i64")' % (el(ld, W63), el(rd, W63), ld, rd))
+    regs.append('c05::Bin<%s, %s, true>::reg("2100_wide31|2100_wide31")' % (el(2100, 'cnl::wide_integer<31>'), el(2100, 'cnl::wide_integer<31>')))
     # elastic_scaled_integer pairs with different digit counts, exponents and signedness
     for (d1, e1, n1, d2, e2, n2) in [(20, -20, 'int', 20, 0, 'int'), (20, 0, 'int', 20, -20, 'int'), (16, -8, 'int', 16, -8, 'unsigned'), (31, -16, 'int', 8, 0, 'unsigned'),
                                      (40, -20, 'int', 10, 3, 'int'), (8, 0, 'unsigned', 63, -31, 'int'), (24, 4, 'int', 24, -4, 'unsigned'), (15, -30, 'signed char', 15, 10, 'int'),
